@@ -390,6 +390,22 @@ def run_unit(name, tier="quick", use_cache=True, canary=True, repo=None):
     for fl in xflags:
         res["trusted_base"].append("verus flag %s (DESIGN.md section 7)" % fl)
     vr = verus.run(gen, rlimit=rl, use_cache=use_cache and tier != "thorough", extra=xflags, rustc_extra=rflags)
+    # a query that runs out of its resource limit says nothing about the code: one retry with a four times larger limit (a harmless
+    # edit elsewhere in the file can push a slow query over the line)
+    if vr.get("results") is not None and any("Resource limit" in (d.get("message") or "") for d in vr.get("diags", [])):
+        cur = rl or 10
+        xf2 = list(xflags)
+        if "--rlimit" in xf2:
+            k = xf2.index("--rlimit")
+            try:
+                cur = int(xf2[k + 1])
+            except Exception:
+                pass
+            del xf2[k:k + 2]
+        vr2 = verus.run(gen, rlimit=4 * cur, use_cache=use_cache and tier != "thorough", extra=xf2, rustc_extra=rflags)
+        if vr2.get("results") is not None:
+            vr = vr2
+            res.setdefault("notes", []).append("a query exceeded its resource limit; the unit was re-run once with --rlimit %d" % (4 * cur))
     res["verus"] = {"cmd": vr["cmd"], "wall_s": vr["wall_s"], "cached": vr["cached"], "rc": vr["rc"]}
     if vr["timeout"] or vr["results"] is None:
         res["status"] = "undecided"
